@@ -27,10 +27,13 @@ from .common import Check, run_tlc, require_model_ok, TlcResult
 from .c08 import TermEval
 
 CHECK_INVS = {
-    "ref": ["InvRefValues", "InvRefBounds", "InvRefEqualLengths", "InvW3jIndexSet"],
-    "xtal": ["InvXtal"],
-    "cfg": ["InvNoTies", "InvWeights", "InvEqualWeightsTerms", "InvExactBounds", "InvW3jIndexSet"],
+    "ref": ["InvRefValues", "InvRefBounds", "InvRefEqualLengths", "InvW3jIndexSet", "InvSession"],
+    "xtal": ["InvXtal", "InvSession"],
+    "cfg": ["InvNoTies", "InvWeights", "InvEqualWeightsTerms", "InvExactBounds", "InvW3jIndexSet", "InvFrameAttributes",
+            "InvSession"],
 }
+# the emission runs check, on every emitted state, the clauses about the attributes that only vary there (line orders)
+GEN_INVS = {"ref": ["Emit", "InvSession"], "xtal": ["Emit", "InvSession"], "cfg": ["Emit", "InvFrameAttributes", "InvSession"]}
 TOL32 = 3e-7          # s_ij is stored by the code in float32
 
 
@@ -46,7 +49,7 @@ def tlc_plan(tier):
 
     def boo(label, mode, scope, gen, stride, nsh):
         jobs.append((label, "MC_Boo3D", dict(base, Mode=mode, Scope=scope, Gen=gen, Stride=stride),
-                     ["Emit"] if gen else CHECK_INVS[mode], nsh))
+                     GEN_INVS[mode] if gen else CHECK_INVS[mode], nsh))
 
     jobs.append(("w3j", "MC_SphHarm", {"Tier": tier, "Mode": "w3j"}, ["Emit"], 4))
     boo("ref check", "ref", "x", False, 1, 2)
@@ -54,9 +57,9 @@ def tlc_plan(tier):
     boo("xtal check", "xtal", "x", False, 1, 2 if q else 6)
     boo("xtal gen", "xtal", "x", True, 1, 2 if q else 6)
     boo("cfg exact check", "cfg", "exact", False, 1, 8 if q else 16)
-    boo("cfg exact gen", "cfg", "exact", True, 700 if q else 150, 4 if q else 12)
+    boo("cfg exact gen", "cfg", "exact", True, 2001 if q else 451, 4 if q else 12)
     boo("cfg generic check", "cfg", "generic", False, 1, 6 if q else 12)
-    boo("cfg generic gen", "cfg", "generic", True, 2500 if q else 130, 6 if q else 16)
+    boo("cfg generic gen", "cfg", "generic", True, 7999 if q else 431, 6 if q else 16)
     return jobs
 
 
@@ -88,18 +91,21 @@ def run_plan(jobs, on_result):
 # rendering an abstract case for the library
 # --------------------------------------------------------------------------
 
-def write_lists(path, frames_lists, header, fmt):
+def write_lists(path, frames_lists, header, fmt, orders=None):
+    """one block per frame; the lines of frame f in the order orders[f] (ids), ascending when not given"""
     with open(path, "w") as f:
-        for rows in frames_lists:
+        for k, rows in enumerate(frames_lists):
             f.write(header + "\n")
-            for i, row in enumerate(rows):
-                f.write("%d %d " % (i + 1, len(row)) + " ".join(fmt(x) for x in row) + "\n")
+            order = orders[k] if orders and orders[k] else range(1, len(rows) + 1)
+            for i in order:
+                row = rows[i - 1]
+                f.write("%d %d " % (i, len(row)) + " ".join(fmt(x) for x in row) + "\n")
 
 
 def render(case, te, tmp, scale, wmul, lib):
     """-> (Snapshots, neighbour file, weight file or None, ppp, nmax)"""
     SingleSnapshot, Snapshots = lib["SingleSnapshot"], lib["Snapshots"]
-    H = np.array(case["H"], dtype=float) / scale
+    H0 = np.array(case["H"], dtype=float) / scale
     if case["kind"] == "ref":
         pos = np.array([[float(te.inexact(te.ev(c))) for c in p] for p in case["posterms"]])
         rc = np.linalg.norm(pos[1])
@@ -109,16 +115,19 @@ def render(case, te, tmp, scale, wmul, lib):
     snaps = []
     for f, fr in enumerate(frames):
         n = len(fr["posf"])
+        H = np.array(fr["H"], dtype=float) / scale if fr.get("H") else H0      # the cell of THIS frame
         L = np.array([abs(H[k][k]) for k in range(3)])
         snaps.append(SingleSnapshot(timestep=int(case["ts"][f]), nparticle=n, particle_type=np.ones(n, dtype=int),
                                     positions=np.array(fr["posf"], dtype=float), boxlength=L,
                                     boxbounds=np.array([[0.0, x] for x in L]), realbounds=None, hmatrix=H.copy()))
     nfile = os.path.join(tmp, "neighbors.dat")
-    write_lists(nfile, [fr["nl"] for fr in frames], "id     cn     neighborlist", lambda x: "%d" % x)
+    write_lists(nfile, [fr["nl"] for fr in frames], "id     cn     neighborlist", lambda x: "%d" % x,
+                [fr.get("ord") for fr in frames])
     wfile = None
     if frames[0]["w"]:
         wfile = os.path.join(tmp, "weights.dat")
-        write_lists(wfile, [fr["w"] for fr in frames], "id   cn   facearealist", lambda x: "%.6f" % (x * wmul))
+        write_lists(wfile, [fr["w"] for fr in frames], "id   cn   facearealist", lambda x: "%.6f" % (x * wmul),
+                    [fr.get("word") for fr in frames])
     return Snapshots(nsnapshots=len(snaps), snapshots=snaps), nfile, wfile, np.array(case["ppp"]), int(case["nmax"])
 
 
@@ -202,6 +211,16 @@ def _safe(te, term, env):
         return float("nan")
 
 
+def _count_varies(chk, case):
+    """evidence against vacuity: in how many replayed multi-frame cases did each frame attribute differ between frames"""
+    v = case.get("varies")
+    if v and len(case.get("frames", [])) > 1:
+        chk.extra["multi_frame_cases"] = chk.extra.get("multi_frame_cases", 0) + 1
+        for k2, on in v.items():
+            if on:
+                chk.extra["varies_" + k2] = chk.extra.get("varies_" + k2, 0) + 1
+
+
 def define_all(te, case, w3j):
     env = {}
     for name, body in case["macros"]:
@@ -236,13 +255,15 @@ def replay_case(ctx, case, origin):
     try:
         snaps, nfile, wfile, ppp, nmax = render(case, te, tmp, scale, wmul, lib)
         ident["scale"] = scale
-        ident["input"] = {"hmatrix": snaps.snapshots[0].hmatrix.tolist(), "timesteps": [int(t) for t in case["ts"]],
+        ident["input"] = {"hmatrix": snaps.snapshots[0].hmatrix.tolist(), "hmatrices": [sn.hmatrix.tolist() for sn in snaps.snapshots],
+                          "timesteps": [int(t) for t in case["ts"]],
                           "positions": [sn.positions.tolist() for sn in snaps.snapshots],
                           "neighbor_file": open(nfile).read(), "weight_file": open(wfile).read() if wfile else None}
         violated = _replay_rendered(ctx, case, ident, te, env, snaps, nfile, wfile, ppp, nmax, withw, tmp)
     finally:
         shutil.rmtree(tmp, ignore_errors=True)
     if not violated:
+        _count_varies(chk, case)
         nontriv = any(len(fr_exp["sij"][i]) > 0 for fr_exp in case["exp"] for i in range(len(fr_exp["sij"])))
         chk.ok((origin, case["kind"], l, json.dumps(ident["idx"], sort_keys=True), json.dumps(case.get("ppp"))),
                nontrivial=nontriv,
@@ -250,16 +271,35 @@ def replay_case(ctx, case, origin):
                        "q_l(1)": float(te.inexact(te.ev(case["exp"][0]["ql"][0], env)))})
 
 
+def _sampled_out(ctx, case, call):
+    """quick tier: the same cost sampling as before the calls became a session (thresholds, coarse w_l, correlations)"""
+    if ctx.tier != "quick":
+        return False
+    m, j = call["m"], call["cj"] - 1
+    if m == "sij_ql_Ql":
+        return j not in (0, 3) and (ctx.counter + j) % 3 != 0
+    if m == "w_W_cap":
+        return bool(call["cg"]) and ctx.counter % 2 == 1 and case["kind"] == "cfg"
+    if m in ("spatial_corr", "time_corr"):
+        return ctx.counter % 2 == 1 and case["kind"] == "cfg"
+    return False
+
+
 def _replay_rendered(ctx, case, ident, te, env, snaps, nfile, wfile, ppp, nmax, withw, tmp):
+    """One boo_3d object; the calls of the session the specification selected for this case, in that order.  What a call
+    must return is named by the specification (`obs`: fields of the per-frame expectation record) and depends on the
+    call alone."""
     chk, lib = ctx.chk, ctx.lib
     boo_3d = lib["boo_3d"]
     l = case["l"]
     F = snaps.nsnapshots
     N = snaps.snapshots[0].nparticle
     exp = case["exp"]
+    pos = [0]                                    # position in the session (for the report)
+    done = []
 
     def viol(clause, **kw):
-        chk.violation(clause, dict(ident, **kw))
+        chk.violation(clause, dict(ident, session_so_far=list(done), **kw))
         return True
 
     try:
@@ -274,132 +314,229 @@ def _replay_rendered(ctx, case, ident, te, env, snaps, nfile, wfile, ppp, nmax, 
         return viol(f"raises:{type(e).__name__}", where="boo_3d()", error=str(e)[:200])
     if qlm.shape != (F, N, 2 * l + 1) or Qlm.shape != qlm.shape:
         return viol("qlm:shape", observed=list(qlm.shape))
-
-    # ---- q_lm, Q_lm
-    for f in range(F):
-        for i in range(N):
-            for k in range(2 * l + 1):
-                e = _cval(te, te.ev(exp[f]["qlm"][i][k], env))
-                if not _close(qlm[f, i, k], e):
-                    return viol("qlm:weighted average of Y_lm over minimum-image bonds", frame=f, i=i + 1, m=k - l,
-                                expected=[e.real, e.imag], observed=[float(qlm[f, i, k].real), float(qlm[f, i, k].imag)])
-                e = _cval(te, te.ev(exp[f]["Qlm"][i][k], env))
-                if not _close(Qlm[f, i, k], e):
-                    return viol("Qlm:coarse-graining (q_i + sum_j q_j)/(1+N_i)", frame=f, i=i + 1, m=k - l,
-                                expected=[e.real, e.imag], observed=[float(Qlm[f, i, k].real), float(Qlm[f, i, k].imag)])
-    # ---- q_l, Q_l (Y table and addition theorem), bounds, exact values
-    try:
-        ql, Ql = np.asarray(b.ql_Ql(False)), np.asarray(b.ql_Ql(True))
-    except Exception as e:  # noqa
-        return viol(f"raises:{type(e).__name__}", where="ql_Ql", error=str(e)[:200])
-    for f in range(F):
-        for i in range(N):
-            for name, arr, key in (("ql", ql, "ql"), ("Ql", Ql, "Ql")):
-                e = float(te.inexact(te.ev(exp[f][key][i], env)))
-                if not _close(arr[f, i], e):
-                    return viol(f"{name}:sqrt(4pi/(2l+1) sum|q_lm|^2)", frame=f, i=i + 1, expected=e, observed=float(arr[f, i]))
-                if not (-1e-12 <= arr[f, i] <= 1 + 1e-9):
-                    return viol("bounds:0<=q_l<=1", frame=f, i=i + 1, observed=float(arr[f, i]))
-            e = complex(te.inexact(te.ev(exp[f]["qladd"][i], env)))
-            if not abs(ql[f, i] ** 2 - (e * e).real) <= 1e-9:     # compared as squares: the sum may cancel to ~0
-                return viol("ql:addition theorem sum_ab w_a w_b P_l(cos gamma_ab)", frame=f, i=i + 1,
-                            expected_squared=(e * e).real, observed=float(ql[f, i]))
-        ex = case.get("exact", [None] * F)[f] if case.get("exact") else None
-        if ex and ex.get("have"):
-            for i in range(N):
-                for key, arr in (("ql2", ql), ("Ql2", Ql)):
-                    e = float(te.ev(ex[key][i]))
-                    if not abs(arr[f, i] ** 2 - e) <= 1e-9:
-                        return viol(f"{key}:exact rational (addition theorem, TLC)", frame=f, i=i + 1, expected=e, observed=float(arr[f, i] ** 2))
-    if case["kind"] == "ref" and case["tabulated"]["q"]:
-        lo, hi = (float(te.ev(x)) for x in case["tabulated"]["q"])
-        if not (lo - 1e-9 <= ql[0, 0] <= hi + 1e-9):
-            return viol("reference:tabulated q_l", name=case["name"], bracket=[lo, hi], observed=float(ql[0, 0]))
-    if case["kind"] == "xtal":
-        e = math.sqrt(float(te.ev(case["ql2ref"])))
-        for i in range(N):
-            if not _close(ql[0, i], e) or not _close(Ql[0, i], e):
-                return viol("reference:perfect crystal q_l = Q_l = tabulated", name=case["name"], i=i + 1, expected=e,
-                            observed=[float(ql[0, i]), float(Ql[0, i])])
-    # ---- s_ij and thresholded counts
+    qlm0, Qlm0 = qlm.copy(), Qlm.copy()
     n2 = [[float(te.inexact(te.ev(exp[f]["n2"][i], env))) for i in range(N)] for f in range(F)]
     N2 = [[float(te.inexact(te.ev(exp[f]["N2"][i], env))) for i in range(N)] for f in range(F)]
-    for coarse, key, nn in ((False, "sij", n2), (True, "Sij", N2)):
-        for j, cnt in enumerate(exp[0]["cnt"]):
-            c = float(te.ev(cnt["c"]))
-            if ctx.tier == "quick" and j not in (0, 3) and (ctx.counter + j) % 3:
-                continue
-            csv = os.path.join(tmp, f"cnt_{key}_{j}.csv")
-            txt = os.path.join(tmp, f"sij_{key}_{j}.txt") if (ctx.counter + j) % 2 else None
-            try:
-                res = b.sij_ql_Ql(coarse_graining=coarse, c=c, outputqlQl=csv, outputsij=txt)
-                tab = np.loadtxt(csv, delimiter=",", skiprows=1, ndmin=2)
-            except Exception as e:  # noqa
-                return viol(f"raises:{type(e).__name__}", where="sij_ql_Ql", coarse=coarse, c=c, error=str(e)[:200])
-            rows = np.concatenate([np.asarray(x) for x in res], axis=0) if isinstance(res, list) else np.asarray(res)
-            if rows.shape[0] != F * N or tab.shape != (F * N, 3):
-                return viol("sij:shape", observed=[list(rows.shape), list(tab.shape)])
-            if txt:
-                ftab = np.loadtxt(txt, skiprows=1, ndmin=2)
-                if ftab.shape != rows.shape or not np.allclose(ftab, rows, atol=2e-6, rtol=0):
-                    return viol("file:sij text file differs from the returned array", coarse=coarse)
-            for f in range(F):
-                cnf = exp[f]["cn"]
+    norms = {"n2": n2, "N2": N2}
+    fields = {"qlm": qlm, "Qlm": Qlm}
+    comp = case["compose"]
+
+    # ---- q_lm, Q_lm: the constructor's state, and the value of every later call of qlm_Qlm()
+    def check_qlm(q, Q, where):
+        for f in range(F):
+            for i in range(N):
+                for k in range(2 * l + 1):
+                    e = _cval(te, te.ev(exp[f]["qlm"][i][k], env))
+                    if not _close(q[f, i, k], e):
+                        return viol("qlm:weighted average of Y_lm over minimum-image bonds", where=where, frame=f, i=i + 1, m=k - l,
+                                    expected=[e.real, e.imag], observed=[float(q[f, i, k].real), float(q[f, i, k].imag)])
+                    e = _cval(te, te.ev(exp[f]["Qlm"][i][k], env))
+                    if not _close(Q[f, i, k], e):
+                        return viol("Qlm:coarse-graining (q_i + sum_j q_j)/(1+N_i)", where=where, frame=f, i=i + 1, m=k - l,
+                                    expected=[e.real, e.imag], observed=[float(Q[f, i, k].real), float(Q[f, i, k].imag)])
+        return False
+
+    if check_qlm(qlm, Qlm, "constructor"):
+        return True
+
+    def call_qlm(call):
+        try:
+            q, Q = b.qlm_Qlm()
+            q, Q = np.asarray(q), np.asarray(Q)
+        except Exception as e:  # noqa
+            return viol(f"raises:{type(e).__name__}", where="qlm_Qlm", error=str(e)[:200])
+        if q.shape != (F, N, 2 * l + 1) or Q.shape != q.shape:
+            return viol("qlm:shape", where="qlm_Qlm()", observed=list(q.shape))
+        return check_qlm(q, Q, "qlm_Qlm()")
+
+    # ---- q_l / Q_l (Y table and addition theorem), bounds, exact values
+    def call_ql(call):
+        coarse = bool(call["cg"])
+        key = call["obs"][0]
+        try:
+            arr = np.asarray(b.ql_Ql(coarse))
+        except Exception as e:  # noqa
+            return viol(f"raises:{type(e).__name__}", where="ql_Ql", error=str(e)[:200])
+        if arr.shape != (F, N):
+            return viol("ql:shape", observed=list(arr.shape))
+        for f in range(F):
+            for i in range(N):
+                e = float(te.inexact(te.ev(exp[f][key][i], env)))
+                if not _close(arr[f, i], e):
+                    return viol(f"{key}:sqrt(4pi/(2l+1) sum|q_lm|^2)", frame=f, i=i + 1, expected=e, observed=float(arr[f, i]))
+                if not (-1e-12 <= arr[f, i] <= 1 + 1e-9):
+                    return viol("bounds:0<=q_l<=1", frame=f, i=i + 1, observed=float(arr[f, i]))
+                if not coarse:
+                    e = complex(te.inexact(te.ev(exp[f]["qladd"][i], env)))
+                    if not abs(arr[f, i] ** 2 - (e * e).real) <= 1e-9:     # compared as squares: the sum may cancel to ~0
+                        return viol("ql:addition theorem sum_ab w_a w_b P_l(cos gamma_ab)", frame=f, i=i + 1,
+                                    expected_squared=(e * e).real, observed=float(arr[f, i]))
+            ex = case.get("exact", [None] * F)[f] if case.get("exact") else None
+            if ex and ex.get("have"):
+                xkey = key + "2"
                 for i in range(N):
-                    r = f * N + i
-                    if int(rows[r, 0]) != i + 1 or int(rows[r, 1]) != cnf[i] or int(tab[r, 0]) != i + 1 or int(tab[r, 2]) != cnf[i]:
-                        return viol("sij:id / coordination columns", frame=f, i=i + 1, expected_cn=cnf[i],
-                                    observed=[float(rows[r, 0]), float(rows[r, 1]), float(tab[r, 2])])
-                    nbs = exp[f]["nb"][i]
-                    defined = nn[f][i] > 1e-12 and all(nn[f][x - 1] > 1e-12 for x in nbs)
-                    if not defined:
-                        chk.extra["undefined_sij_skipped"] = chk.extra.get("undefined_sij_skipped", 0) + 1
-                        continue
-                    for k in range(cnf[i]):
-                        e = float(te.inexact(te.ev(exp[f][key][i][k], env)).real)
-                        o = float(rows[r, 2 + k])
-                        if not abs(o - e) <= TOL32:
-                            return viol(f"{key}:Re(q_i.conj q_j)/(|q_i||q_j|)", frame=f, i=i + 1, k=k + 1, j=nbs[k], expected=e, observed=o)
-                        if not abs(o) <= 1 + 1e-6:
-                            return viol("bounds:|s_ij|<=1", frame=f, i=i + 1, k=k + 1, observed=o)
-                    te.margin = None
-                    ec = int(te.ev(exp[f]["cnt"][j]["Q" if coarse else "q"][i], env))
-                    if te.margin is not None and te.margin < 1e-6:
-                        chk.tie()
-                        continue
-                    if int(tab[r, 1]) != ec:
-                        return viol(f"count:#{{j : {key} > c}}", frame=f, i=i + 1, c=c, expected=ec, observed=int(tab[r, 1]), cn=cnf[i])
-                    ex = case.get("exact")[f] if case.get("exact") else None
-                    if ex and ex.get("have"):
-                        xc = ex["cnt"][j]
-                        xe, xt = xc["Q" if coarse else "q"][i], xc["Qtie" if coarse else "qtie"][i]
-                        if xe >= 0 and not xt and int(tab[r, 1]) != xe:
-                            return viol(f"count:exact decision by TLC ({key} > c)", frame=f, i=i + 1, c=c, expected=xe, observed=int(tab[r, 1]))
+                    e = float(te.ev(ex[xkey][i]))
+                    if not abs(arr[f, i] ** 2 - e) <= 1e-9:
+                        return viol(f"{xkey}:exact rational (addition theorem, TLC)", frame=f, i=i + 1, expected=e, observed=float(arr[f, i] ** 2))
+        if case["kind"] == "ref" and not coarse and case["tabulated"]["q"]:
+            lo, hi = (float(te.ev(x)) for x in case["tabulated"]["q"])
+            if not (lo - 1e-9 <= arr[0, 0] <= hi + 1e-9):
+                return viol("reference:tabulated q_l", name=case["name"], bracket=[lo, hi], observed=float(arr[0, 0]))
+        if case["kind"] == "xtal":
+            e = math.sqrt(float(te.ev(case["ql2ref"])))
+            for i in range(N):
+                if not _close(arr[0, i], e):
+                    return viol("reference:perfect crystal q_l = Q_l = tabulated", name=case["name"], i=i + 1, expected=e,
+                                coarse=coarse, observed=float(arr[0, i]))
+        return False
+
+    # ---- s_ij and thresholded counts
+    def call_sij(call):
+        coarse = bool(call["cg"])
+        key, ckey, nkey = call["obs"]
+        nn = norms[nkey]
+        j = call["cj"] - 1
+        c = float(te.ev(exp[0]["cnt"][j]["c"]))
+        csv = os.path.join(tmp, f"cnt_{key}_{j}_{pos[0]}.csv")
+        txt = os.path.join(tmp, f"sij_{key}_{j}_{pos[0]}.txt") if (ctx.counter + j) % 2 else None
+        try:
+            res = b.sij_ql_Ql(coarse_graining=coarse, c=c, outputqlQl=csv, outputsij=txt)
+            tab = np.loadtxt(csv, delimiter=",", skiprows=1, ndmin=2)
+        except Exception as e:  # noqa
+            return viol(f"raises:{type(e).__name__}", where="sij_ql_Ql", coarse=coarse, c=c, error=str(e)[:200])
+        rows = np.concatenate([np.asarray(x) for x in res], axis=0) if isinstance(res, list) else np.asarray(res)
+        if rows.shape[0] != F * N or tab.shape != (F * N, 3):
+            return viol("sij:shape", observed=[list(rows.shape), list(tab.shape)])
+        if txt:
+            ftab = np.loadtxt(txt, skiprows=1, ndmin=2)
+            if ftab.shape != rows.shape or not np.allclose(ftab, rows, atol=2e-6, rtol=0):
+                return viol("file:sij text file differs from the returned array", coarse=coarse)
+        for f in range(F):
+            cnf = exp[f]["cn"]
+            for i in range(N):
+                r = f * N + i
+                if int(rows[r, 0]) != i + 1 or int(rows[r, 1]) != cnf[i] or int(tab[r, 0]) != i + 1 or int(tab[r, 2]) != cnf[i]:
+                    return viol("sij:id / coordination columns", frame=f, i=i + 1, expected_cn=cnf[i],
+                                observed=[float(rows[r, 0]), float(rows[r, 1]), float(tab[r, 2])])
+                nbs = exp[f]["nb"][i]
+                defined = nn[f][i] > 1e-12 and all(nn[f][x - 1] > 1e-12 for x in nbs)
+                if not defined:
+                    chk.extra["undefined_sij_skipped"] = chk.extra.get("undefined_sij_skipped", 0) + 1
+                    continue
+                for k in range(cnf[i]):
+                    e = float(te.inexact(te.ev(exp[f][key][i][k], env)).real)
+                    o = float(rows[r, 2 + k])
+                    if not abs(o - e) <= TOL32:
+                        return viol(f"{key}:Re(q_i.conj q_j)/(|q_i||q_j|)", frame=f, i=i + 1, k=k + 1, j=nbs[k], expected=e, observed=o)
+                    if not abs(o) <= 1 + 1e-6:
+                        return viol("bounds:|s_ij|<=1", frame=f, i=i + 1, k=k + 1, observed=o)
+                te.margin = None
+                ec = int(te.ev(exp[f]["cnt"][j][ckey][i], env))
+                if te.margin is not None and te.margin < 1e-6:
+                    chk.tie()
+                    continue
+                if int(tab[r, 1]) != ec:
+                    return viol(f"count:#{{j : {key} > c}}", frame=f, i=i + 1, c=c, expected=ec, observed=int(tab[r, 1]), cn=cnf[i])
+                ex = case.get("exact")[f] if case.get("exact") else None
+                if ex and ex.get("have"):
+                    xc = ex["cnt"][j]
+                    xe, xt = xc[ckey][i], xc[ckey + "tie"][i]
+                    if xe >= 0 and not xt and int(tab[r, 1]) != xe:
+                        return viol(f"count:exact decision by TLC ({key} > c)", frame=f, i=i + 1, c=c, expected=xe, observed=int(tab[r, 1]))
+        return False
+
     # ---- w_l, w^_l
-    if withw:
-        for coarse, kw, kc, nn in ((False, "w", "wcap", n2), (True, "W", "Wcap", N2)):
-            if coarse and ctx.tier == "quick" and ctx.counter % 2 and case["kind"] == "cfg":
-                continue
-            try:
-                w, wc = b.w_W_cap(coarse_graining=coarse)
-                w, wc = np.asarray(w, dtype=float), np.asarray(wc, dtype=float)
-            except Exception as e:  # noqa
-                return viol(f"raises:{type(e).__name__}", where="w_W_cap", error=str(e)[:200])
-            if w.shape != (F, N):
-                return viol("w:shape", observed=list(w.shape))
-            for f in range(F):
-                for i in range(N):
-                    e = float(te.inexact(te.ev(exp[f][kw][i], env)).real)
-                    if not _close(w[f, i], e, 1e-10):
-                        return viol(f"{kw}:3-j contraction over m1+m2+m3=0", frame=f, i=i + 1, expected=e, observed=float(w[f, i]))
-                    if nn[f][i] > 1e-10:
-                        e = float(te.inexact(te.ev(exp[f][kc][i], env)).real)
-                        if not _close(wc[f, i], e, 1e-8):
-                            return viol(f"{kc}:w_l/(sum|q_lm|^2)^(3/2)", frame=f, i=i + 1, expected=e, observed=float(wc[f, i]))
-            if case["kind"] == "ref" and not coarse and case["tabulated"]["wcap"]:
-                lo, hi = (float(te.ev(x)) for x in case["tabulated"]["wcap"])
-                if not (lo - 1e-9 <= wc[0, 0] <= hi + 1e-9):
-                    return viol("reference:tabulated w^_l", name=case["name"], bracket=[lo, hi], observed=float(wc[0, 0]))
+    def call_w(call):
+        coarse = bool(call["cg"])
+        kw_, kc, nkey = call["obs"]
+        nn = norms[nkey]
+        try:
+            w, wc = b.w_W_cap(coarse_graining=coarse)
+            w, wc = np.asarray(w, dtype=float), np.asarray(wc, dtype=float)
+        except Exception as e:  # noqa
+            return viol(f"raises:{type(e).__name__}", where="w_W_cap", error=str(e)[:200])
+        if w.shape != (F, N):
+            return viol("w:shape", observed=list(w.shape))
+        for f in range(F):
+            for i in range(N):
+                e = float(te.inexact(te.ev(exp[f][kw_][i], env)).real)
+                if not _close(w[f, i], e, 1e-10):
+                    return viol(f"{kw_}:3-j contraction over m1+m2+m3=0", frame=f, i=i + 1, expected=e, observed=float(w[f, i]))
+                if nn[f][i] > 1e-10:
+                    e = float(te.inexact(te.ev(exp[f][kc][i], env)).real)
+                    if not _close(wc[f, i], e, 1e-8):
+                        return viol(f"{kc}:w_l/(sum|q_lm|^2)^(3/2)", frame=f, i=i + 1, expected=e, observed=float(wc[f, i]))
+        if case["kind"] == "ref" and not coarse and case["tabulated"]["wcap"]:
+            lo, hi = (float(te.ev(x)) for x in case["tabulated"]["wcap"])
+            if not (lo - 1e-9 <= wc[0, 0] <= hi + 1e-9):
+                return viol("reference:tabulated w^_l", name=case["name"], bracket=[lo, hi], observed=float(wc[0, 0]))
+        return False
+
+    # ---- correlations by composition with the public conditional_gr / time_correlation on the q_lm the spec confirmed
+    rdelta = float(min(s.boxlength.min() for s in snaps.snapshots)) / 2 / 6.5
+
+    def call_spatial(call):
+        coarse = bool(call["cg"])
+        arr = fields[call["obs"][0]]
+        out = os.path.join(tmp, f"gl_{pos[0]}.csv")
+        try:
+            got = b.spatial_corr(coarse_graining=coarse, rdelta=rdelta, outputfile=out)
+            ref = None
+            for n, s in enumerate(snaps.snapshots):
+                g = getattr(lib["gr_mod"], comp["spatial"]["fn"])(snapshot=s, condition=arr[n],
+                                                                  conditiontype=comp["spatial"]["conditiontype"], ppp=ppp, rdelta=rdelta)
+                ref = g if ref is None else ref + g
+            ref = ref / F
+        except Exception as e:  # noqa
+            return viol(f"raises:{type(e).__name__}", where="spatial_corr", error=str(e)[:200])
+        if list(got.columns) != list(ref.columns) or got.shape != ref.shape or \
+                not np.allclose(got.values, ref.values, atol=1e-9, rtol=1e-9, equal_nan=True):
+            return viol("spatial_corr:composition mean_f conditional_gr(q_lm[f], 'vector')", coarse=coarse)
+        import pandas as pd
+        back = pd.read_csv(out)
+        if back.shape != got.shape or not np.allclose(back.values, got.values, atol=2e-8, rtol=0, equal_nan=True):
+            return viol("file:spatial_corr csv differs from the returned frame", coarse=coarse)
+        return False
+
+    def call_time(call):
+        coarse = bool(call["cg"])
+        arr = fields[call["obs"][0]]
+        try:
+            dt = 0.002
+            gt = b.time_corr(coarse_graining=coarse, dt=dt, outputfile=os.path.join(tmp, f"gt_{pos[0]}.csv"))
+            tc = getattr(lib["tc_mod"], comp["time"]["fn"])(snapshots=snaps, condition=arr, dt=dt)
+        except Exception as e:  # noqa
+            return viol(f"raises:{type(e).__name__}", where="time_corr", error=str(e)[:200])
+        col = np.asarray(tc[comp["time"]["column"]], dtype=float) * float(te.inexact(te.ev(comp["time"]["scale"])))
+        col = col / col[0]
+        if not np.allclose(np.asarray(gt["t"]), np.asarray(tc["t"]), atol=1e-12) or \
+                not np.allclose(np.asarray(gt["time_corr"], dtype=float), col, atol=1e-9, rtol=1e-9, equal_nan=True):
+            return viol("time_corr:composition time_correlation(q_lm) normalised at lag 0", coarse=coarse)
+        return False
+
+    dispatch = {"qlm_Qlm": call_qlm, "ql_Ql": call_ql, "sij_ql_Ql": call_sij, "w_W_cap": call_w,
+                "spatial_corr": call_spatial, "time_corr": call_time}
+    pairs = chk.extra.setdefault("session_pairs", [])
+    prev = None
+    for call in case["session"]:
+        pos[0] += 1
+        if call["m"] not in dispatch:
+            raise common.MachineryError(f"session call {call['m']} unknown to the harness")
+        if (call["m"] == "w_W_cap" and not withw) or _sampled_out(ctx, case, call):
+            continue
+        key = f"{call['m']}:{'Q' if call['cg'] else 'q'}"
+        tag = key + (f":c{call['cj']}" if call["cj"] else "")
+        if dispatch[call["m"]](call):
+            return True
+        done.append(tag)
+        # the object still holds the q_lm / Q_lm its constructor computed (and the arrays handed out are the same objects)
+        if not (np.array_equal(np.asarray(b.smallqlm), qlm0, equal_nan=True) and np.array_equal(np.asarray(b.largeQlm), Qlm0, equal_nan=True)):
+            return viol("session:a method changed the q_lm / Q_lm held by the object", after=tag)
+        if prev is not None and prev + ">" + key not in pairs:
+            pairs.append(prev + ">" + key)
+        prev = key
+    chk.extra["session_calls"] = chk.extra.get("session_calls", 0) + len(done)
+
     # ---- equal weights reproduce the unweighted result (on the code's own outputs)
     if wfile and case["kind"] == "cfg" and case["idx"].get("wi") == 2:
         try:
@@ -408,39 +545,6 @@ def _replay_rendered(ctx, case, ident, te, env, snaps, nfile, wfile, ppp, nmax, 
             return viol(f"raises:{type(e).__name__}", where="boo_3d() unweighted", error=str(e)[:200])
         if not np.allclose(b0.smallqlm, qlm, atol=1e-12, rtol=0) or not np.allclose(b0.largeQlm, Qlm, atol=1e-12, rtol=0):
             return viol("equal-weights:differs from the unweighted result")
-    # ---- correlations by composition with the public conditional_gr / time_correlation on the code's own q_lm
-    comp = case["compose"]
-    if (ctx.counter % 2 == 0) or ctx.tier != "quick" or case["kind"] != "cfg":
-        rdelta = float(min(s.boxlength.min() for s in snaps.snapshots)) / 2 / 6.5
-        for coarse, arr in ((False, qlm), (True, Qlm)):
-            try:
-                got = b.spatial_corr(coarse_graining=coarse, rdelta=rdelta, outputfile=os.path.join(tmp, "gl.csv"))
-                ref = None
-                for n, s in enumerate(snaps.snapshots):
-                    g = getattr(lib["gr_mod"], comp["spatial"]["fn"])(snapshot=s, condition=arr[n],
-                                                                      conditiontype=comp["spatial"]["conditiontype"], ppp=ppp, rdelta=rdelta)
-                    ref = g if ref is None else ref + g
-                ref = ref / F
-            except Exception as e:  # noqa
-                return viol(f"raises:{type(e).__name__}", where="spatial_corr", error=str(e)[:200])
-            if list(got.columns) != list(ref.columns) or got.shape != ref.shape or \
-                    not np.allclose(got.values, ref.values, atol=1e-9, rtol=1e-9, equal_nan=True):
-                return viol("spatial_corr:composition mean_f conditional_gr(q_lm[f], 'vector')", coarse=coarse)
-            import pandas as pd
-            back = pd.read_csv(os.path.join(tmp, "gl.csv"))
-            if back.shape != got.shape or not np.allclose(back.values, got.values, atol=2e-8, rtol=0, equal_nan=True):
-                return viol("file:spatial_corr csv differs from the returned frame", coarse=coarse)
-            try:
-                dt = 0.002
-                gt = b.time_corr(coarse_graining=coarse, dt=dt, outputfile=os.path.join(tmp, "gt.csv"))
-                tc = getattr(lib["tc_mod"], comp["time"]["fn"])(snapshots=snaps, condition=arr, dt=dt)
-            except Exception as e:  # noqa
-                return viol(f"raises:{type(e).__name__}", where="time_corr", error=str(e)[:200])
-            col = np.asarray(tc[comp["time"]["column"]], dtype=float) * float(te.inexact(te.ev(comp["time"]["scale"])))
-            col = col / col[0]
-            if not np.allclose(np.asarray(gt["t"]), np.asarray(tc["t"]), atol=1e-12) or \
-                    not np.allclose(np.asarray(gt["time_corr"], dtype=float), col, atol=1e-9, rtol=1e-9, equal_nan=True):
-                return viol("time_corr:composition time_correlation(q_lm) normalised at lag 0", coarse=coarse)
     # ---- npy / text outputs of ql_Ql and w_W_cap equal the returned arrays
     if ctx.counter % 4 == 0:
         try:
@@ -463,17 +567,45 @@ def _replay_rendered(ctx, case, ident, te, env, snaps, nfile, wfile, ppp, nmax, 
 # --------------------------------------------------------------------------
 
 def _parse_lists(path, nframes, n, as_weight):
-    out = []
+    """-> (per frame the rows filed under their ids, per frame the ids in the order of the lines)"""
+    out, orders = [], []
     with open(path) as f:
         for _ in range(nframes):
             f.readline()
-            rows = [None] * n
+            rows, order = [None] * n, []
             for _ in range(n):
                 it = f.readline().split()
                 vals = it[2:2 + int(it[1])]
                 rows[int(it[0]) - 1] = [int(Decimal(x) * 1000000) for x in vals] if as_weight else [int(x) for x in vals]
+                order.append(int(it[0]))
             out.append(rows)
-    return out
+            orders.append(order)
+    return out, orders
+
+
+def _shuffle_lines(rng, path, nframes, n):
+    """rewrite a neighbour / weight file with the lines of every frame in an order of their own"""
+    with open(path) as f:
+        lines = f.read().split("\n")
+    out, k = [], 0
+    for _ in range(nframes):
+        out.append(lines[k])
+        block = lines[k + 1:k + 1 + n]
+        rng.shuffle(block)
+        out.extend(block)
+        k += n + 1
+    with open(path, "w") as f:
+        f.write("\n".join(out) + "\n")
+
+
+def _random_session(rng, nthr=4):
+    cat = [("qlm_Qlm", False, 0)]
+    for m in ("ql_Ql", "w_W_cap", "spatial_corr", "time_corr"):
+        cat += [(m, False, 0), (m, True, 0)]
+    cat += [("sij_ql_Ql", cg, j) for cg in (False, True) for j in range(1, nthr + 1)]
+    rng.shuffle(cat)
+    cat += [rng.choice(cat[:-1]) for _ in range(2)]           # two calls repeated later in the session
+    return [{"m": m, "cg": cg, "cj": j} for m, cg, j in cat]
 
 
 def gen_trajectory(rng, lib, tmp, k):
@@ -484,44 +616,69 @@ def gen_trajectory(rng, lib, tmp, k):
     if kind == "voronoi" and lib["cal_neighbors"] is None:
         kind = "cutoff"
     N = rng.randint(8, 16) if kind != "voronoi" else rng.randint(14, 22)
-    F = rng.choice([1, 1, 2, 3])
+    F = rng.choice([1, 1, 2, 3]) if k % 2 else rng.choice([2, 3])
     d = [rng.randint(50, 99) for _ in range(3)]
-    H = [[d[0], 0, 0], [0, d[1], 0], [0, 0, d[2]]]
-    if kind != "voronoi" and rng.random() < 0.6:
-        H[1][0] = rng.randint(-d[0] // 2, d[0] // 2)
-        H[2][0] = rng.randint(-d[0] // 2, d[0] // 2)
-        H[2][1] = rng.randint(-d[1] // 2, d[1] // 2)
+
+    def cell(tilted):
+        H = [[d[0], 0, 0], [0, d[1], 0], [0, 0, d[2]]]
+        if tilted:
+            H[1][0] = rng.randint(-d[0] // 2, d[0] // 2)
+            H[2][0] = rng.randint(-d[0] // 2, d[0] // 2)
+            H[2][1] = rng.randint(-d[1] // 2, d[1] // 2)
+        return H
+
+    # the cell of every frame: one cell, or a sheared run (new tilt factors in every frame, edge lengths constant; a frame
+    # of a sheared run may be orthogonal).  freud's Voronoi lists are written for the orthogonal cell of the same
+    # lengths; boo_3d takes the lists as given.
+    tri = rng.random() < 0.6
+    sheared = F > 1 and rng.random() < 0.6
+    if sheared:
+        Hs = [cell(rng.random() < 0.85) for _ in range(F)]
+    else:
+        Hs = [cell(tri and kind != "voronoi")] * F
+    Hw = [cell(False)] * F if kind == "voronoi" else Hs
     ppp = [1, 1, 1] if kind == "voronoi" or rng.random() < 0.5 else [rng.randint(0, 1) for _ in range(3)]
     base = [[rng.randint(0, d[c] - 1) for c in range(3)] for _ in range(N)]
     frames_pos = []
     for f in range(F):
         frames_pos.append([[x + (rng.randint(-4, 4) if f else 0) for x in p] for p in base])
     ts = [0, 10, 20][:F] if rng.random() < 0.6 else [0, 10, 50][:F]
-    Hf = np.array(H, dtype=float) / S
     L = np.array([d[0], d[1], d[2]], dtype=float) / S
-    snaps = Snapshots(nsnapshots=F, snapshots=[
-        SingleSnapshot(timestep=ts[f], nparticle=N, particle_type=np.ones(N, dtype=int),
-                       positions=np.array(frames_pos[f], dtype=float) / S, boxlength=L,
-                       boxbounds=np.array([[0.0, x] for x in L]), realbounds=None, hmatrix=Hf.copy()) for f in range(F)])
+
+    def snapshots(cells):
+        return Snapshots(nsnapshots=F, snapshots=[
+            SingleSnapshot(timestep=ts[f], nparticle=N, particle_type=np.ones(N, dtype=int),
+                           positions=np.array(frames_pos[f], dtype=float) / S, boxlength=L.copy(),
+                           boxbounds=np.array([[0.0, x] for x in L]), realbounds=None,
+                           hmatrix=np.array(cells[f], dtype=float) / S) for f in range(F)])
+
+    snaps = snapshots(Hs)
+    snaps_w = snaps if Hw is Hs else snapshots(Hw)
     nfile = os.path.join(tmp, f"b{k}.neighbor.dat")
     wfile = None
     if kind == "nnearest":
-        lib["Nnearests"](snaps, N=rng.randint(2, min(12, N - 2)), ppp=np.array(ppp), fnfile=nfile)
+        lib["Nnearests"](snaps_w, N=rng.randint(2, min(12, N - 2)), ppp=np.array(ppp), fnfile=nfile)
     elif kind == "cutoff":
-        lib["cutoffneighbors"](snaps, r_cut=rng.choice([3.1, 3.7, 4.3]), ppp=np.array(ppp), fnfile=nfile)
+        lib["cutoffneighbors"](snaps_w, r_cut=rng.choice([3.1, 3.7, 4.3]), ppp=np.array(ppp), fnfile=nfile)
     else:
-        lib["cal_neighbors"](snaps, outputfile=os.path.join(tmp, f"b{k}"))
+        lib["cal_neighbors"](snaps_w, outputfile=os.path.join(tmp, f"b{k}"))
         wfile = os.path.join(tmp, f"b{k}.facearea.dat")
-    nl = _parse_lists(nfile, F, N, False)
-    w = _parse_lists(wfile, F, N, True) if wfile else None
+    if rng.random() < 0.4:              # the reader files every line under its id: any line order, per frame and per file
+        _shuffle_lines(rng, nfile, F, N)
+        if wfile:
+            _shuffle_lines(rng, wfile, F, N)
+    nl, ords = _parse_lists(nfile, F, N, False)
+    w, words = _parse_lists(wfile, F, N, True) if wfile else (None, None)
     if any(len(r) == 0 for fr in nl for r in fr):
         return None
     if w and any(sum(r) <= 0 for fr in w for r in fr):
         return None
-    l = rng.randint(2, 12)
+    l = rng.choice([4, 6, 12]) if k % 5 == 0 else rng.randint(2, 12)
     nmax = 30 if rng.random() < 0.8 else rng.randint(2, 6)
-    rec = {"deg": l, "H": H, "ppp": ppp, "nmax": nmax,
-           "frames": [{"pos": frames_pos[f], "nl": nl[f], "w": (w[f] if w else [])} for f in range(F)]}
+    rec = {"deg": l, "H": Hs[0], "ppp": ppp, "nmax": nmax,
+           "frames": [{"pos": frames_pos[f], "nl": nl[f], "w": (w[f] if w else []), "H": Hs[f], "ord": ords[f],
+                       "word": (words[f] if w else [])} for f in range(F)],
+           "calls": _random_session(rng)}
     return rec, {"snaps": snaps, "nfile": nfile, "wfile": wfile, "ts": ts, "kind": kind}
 
 
@@ -594,10 +751,13 @@ def replay_trace_case(ctx, case, c):
              "idx": case["idx"], "frames": case["frames"]}
     if case.get("bad"):
         chk.tie()
+        if case.get("outside"):
+            chk.extra["outside_domain_skipped"] = chk.extra.get("outside_domain_skipped", 0) + 1
         return
     te = TermEval()
     env = define_all(te, case, ctx.w3j)
-    ident["input"] = {"hmatrix": c["snaps"].snapshots[0].hmatrix.tolist(), "timesteps": [int(t) for t in c["ts"]],
+    ident["input"] = {"hmatrix": c["snaps"].snapshots[0].hmatrix.tolist(),
+                      "hmatrices": [sn.hmatrix.tolist() for sn in c["snaps"].snapshots], "timesteps": [int(t) for t in c["ts"]],
                       "positions": [sn.positions.tolist() for sn in c["snaps"].snapshots],
                       "neighbor_file": open(c["nfile"]).read(), "weight_file": open(c["wfile"]).read() if c["wfile"] else None}
     del ident["frames"]
@@ -608,6 +768,7 @@ def replay_trace_case(ctx, case, c):
     finally:
         shutil.rmtree(tmp, ignore_errors=True)
     if not violated:
+        _count_varies(chk, case)
         chk.ok(("B", case["idx"]["rec"], case["l"]), sample=None)
 
 
@@ -639,8 +800,11 @@ def run(tier, replay=None):
     chk = Check("C09", tier)
     chk.rule = ("TLC (MC_Boo3D): reference environments sc/fcc/bcc/hcp/ico (tabulated q4,q6 bracketed by exact rationals), periodic "
                 "crystals through the minimum image, small integer configurations (cells incl. triclinic, all masks, 4 list "
-                "topologies, weights none/equal/unequal, 1-3 frames with per-frame lists, Nmax truncation); exact scope decides "
-                "bounds and thresholded counts. A: emitted cases (terms for q_lm, Q_lm, q_l twice, s_ij, counts, w_l, w^_l) replayed "
+                "topologies, weights none/equal/unequal, 1-3 frames whose positions, cell (sheared: tilts change at constant edge lengths), "
+                "lists / padded width, weights and file line orders differ per frame, Nmax truncation); exact scope decides "
+                "bounds and thresholded counts. Every case is a session on ONE boo_3d object: qlm_Qlm, ql_Ql, sij_ql_Ql (4 thresholds), "
+                "w_W_cap (l <= 6 and l = 12), spatial_corr, time_corr with both coarse_graining flags in an order the spec selects "
+                "(two calls repeated), each call judged by its arguments alone. A: emitted cases (terms for q_lm, Q_lm, q_l twice, s_ij, counts, w_l, w^_l) replayed "
                 "into boo_3d at several length scales; B: seeded random trajectories with lists from Nnearests / cutoffneighbors / "
                 "freud Voronoi, validated and expanded by TraceBoo3D. Correlations by composition with conditional_gr / "
                 "time_correlation. distinct_nontrivial = cases with at least one bond pair compared.")
@@ -663,11 +827,12 @@ def run(tier, replay=None):
         if inp:
             tmp = common.scratch_dir("verif_c09r_")
             try:
-                Hm = np.array(inp["hmatrix"])
-                L = np.abs(np.diag(Hm))
+                Hms = [np.array(h) for h in inp.get("hmatrices", [inp["hmatrix"]] * len(inp["positions"]))]
+                L = np.abs(np.diag(Hms[0]))
                 sn = [lib["SingleSnapshot"](timestep=t, nparticle=len(p), particle_type=np.ones(len(p), dtype=int), positions=np.array(p),
                                             boxlength=L, boxbounds=np.array([[0.0, x] for x in L]), realbounds=None, hmatrix=Hm)
-                      for t, p in zip(inp["timesteps"], inp["positions"])]
+                      for t, p, Hm in zip(inp["timesteps"], inp["positions"], Hms)]
+                print("session up to the violation:", c.get("session_so_far"))
                 nf, wf = os.path.join(tmp, "n.dat"), None
                 open(nf, "w").write(inp["neighbor_file"])
                 if inp["weight_file"]:
@@ -722,6 +887,9 @@ def run(tier, replay=None):
         direction_b(ctx, 15 if tier == "quick" else 60)       # runs in this process while the pool replays direction A
         for fu in futures:
             fu.result().merge_into(chk)
+        pairs = set(chk.extra.pop("session_pairs", []))
+        chk.extra["session_adjacent_pairs_distinct"] = len(pairs)       # of 11 x 11 (method, flag) ordered pairs
+        chk.extra["session_pairs_flag_switch"] = len([p for p in pairs if p.split(">")[0][-1] != p[-1]])
     finally:
         pool.shutdown(wait=True, cancel_futures=True)
     return chk.finish()
